@@ -146,6 +146,9 @@ Definition aquery (A : astate) (q : query) : ans :=
   | QNe i j =>
     if a_live A i && a_live A j
     then ABool (negb (list_eqb (contents (aget A i)) (contents (aget A j)))) else ASkip
+  | QStream i w fill adj =>
+    (* the ToString() text as one padded field, whatever else the stream carries *)
+    if a_live A i then ABytes (pad_text w fill adj (join_dec (contents (aget A i)))) else ASkip
   end.
 
 (* ---- whole-buffer expressions of C++ as the copy operations they mean for a value type.
